@@ -401,6 +401,14 @@ class SX:
         if isinstance(obj, str) and not isinstance(obj, Sym):
             if name == 'join':
                 items = list(args[0])
+                if any(type(x).__name__ in ('Opaque', 'Chunks') for x in items):
+                    from . import mfs as _m
+                    parts = []
+                    for i, x in enumerate(items):
+                        if i:
+                            parts.append(obj)
+                        parts.append(x)
+                    return _m.Chunks(parts)
                 if has_sym(items, 1):
                     return sx_join(obj, items)
                 return obj.join(items)
